@@ -3053,6 +3053,7 @@ class ISLaSolver:
             return self.parse(
                 str(int_model_value),
                 var_type,
+                skip_check=True,
                 silent=True,
             )
         except SyntaxError:
@@ -3110,6 +3111,7 @@ class ISLaSolver:
                 + z3_solver.model()[zeroes_padding_var].as_string()
                 + (str_model_value if int_model_value >= 0 else str(-int_model_value)),
                 var.n_type,
+                skip_check=True,
             )
 
     def extract_model_value_flexible_var(
@@ -3133,9 +3135,12 @@ class ISLaSolver:
         :return: See :meth:`~isla.solver.ISLaSolver.extract_model_value`.
         """
 
+        # The value only solves (a cluster of) the SMT formulas of the current state.
+        # Whether the resulting tree satisfies the whole constraint is not decided here.
         return self.parse(
             smt_string_val_to_string(model[z3.String(var.name)]),
             var.n_type,
+            skip_check=True,
         )
 
     @staticmethod
